@@ -5,7 +5,7 @@ from ..expr import access_path, path_str, held_locks, reaching_defs, defs_in_nod
 from ..callgraph import CallGraph
 from ..symb import explore_false_child
 from .common import (Roles, EXPORTER_EXPORT, EXPORTER_FLUSH, EXPORTER_SHUTDOWN, same_class_inline, member_funcs,
-                     comparison, strip_casts, short, FLIP, cond_text, atomic_op)
+                     comparison, strip_casts, short, FLIP, cond_text, atomic_op, gated_by)
 from . import c03
 
 UNITS = ['sdk/src/trace/batch_span_processor.cc', 'sdk/src/logs/batch_log_record_processor.cc',
@@ -722,7 +722,13 @@ def rule_r7(ck, prog, roles, methods):
                 targets.append(p)
         if not targets:
             raise AnalysisBroken('%s::%s: no effectful event found' % (roles.short, mname))
-        bad = [p for p in targets if not g.must_pass_edge(p, not_shutdown_edge)]
+        # decided by pinning: with every load of the shutdown latch pinned to "shut down" no effectful event is reachable (combined
+        # guards such as `if (shut_down || !Add(...)) return;`, named results and early returns are folded by the path explorer)
+        def latch_load(ff, cn):
+            o = atomic_op(cn)
+            return bool(o) and o[0] == 'load' and cn.get('obj') is not None and path_str(access_path(ff, cn['obj'])) == roles.latch
+        holds, _path, n_gates = gated_by(g, targets, latch_load, value=False)
+        bad = [] if holds else [p for p in targets if not gated_by(g, [p], latch_load, value=False)[0]]
         if bad:
             p = bad[0]
             ck.violation('C02.R7', f, 'gate-first', p.n,
